@@ -18,7 +18,7 @@ import (
 // also makes the Finished values disagree: the endpoint must never complete.
 
 var scriptFaults = []string{"replace-type", "duplicate", "omit", "truncate-body", "truncate-body+close", "set-byte", "handshake-length", "insert-record", "close-before", "close-inside", "stall", "fragment(legal)", "coalesce(legal)", "replace-body", "record-version", "oversize-record", "warning-alerts", "empty-record", "length-field", "plaintext-finished",
-	"hello-version", "hello-suites", "hello-compression", "server-bad-selection", "server-cert-list", "deadline", "crafted-key-exchange"}
+	"hello-version", "hello-suites", "hello-compression", "server-bad-selection", "server-cert-list", "deadline", "crafted-key-exchange", "malformed-extensions"}
 var scriptReach = []string{"honest-client-vs-gm-server", "honest-client-vs-auto-server", "honest-server-vs-gm-client", "must-complete-completed", "must-fail-failed", "unspecified-ok", "eut-client", "eut-server-gm", "eut-server-auto", "eut-server-tls", "alert-from-eut", "timeout-at-deadline", "legit-wait", "client-auth-path", "dev-in-client-flight", "dev-in-server-flight", "dev-after-ccs"}
 
 func init() {
@@ -51,6 +51,7 @@ type scriptRun struct {
 	SrvCertList [][]byte
 	Deadline    int64
 	ExtraExt    bool
+	ExtraExts   []reftls.Ext
 }
 
 // number of outgoing units of the honest peer (for drawing At)
@@ -186,6 +187,7 @@ func runScriptedPeer(c *simkit.Choice, r *simkit.Rec) {
 	units := honestUnits(sr.EUTServer, sr.ClientAuth)
 	class := c.Weighted([]int{2, 10, 3, 2}, simkit.LScen) // honest, wire deviations, hello/selection content, deadline
 	crafted := false
+	malformedExt := false
 	if sr.EUTServer && sr.SMode == modeTLS && class != 2 {
 		class = 2 // a TLS-only server only ever sees the ClientHello of the GM scripted client
 	}
@@ -238,7 +240,37 @@ func runScriptedPeer(c *simkit.Choice, r *simkit.Rec) {
 		}
 	case 2:
 		if sr.EUTServer {
-			switch c.Choose(5, simkit.LFault) {
+			switch c.Choose(6, simkit.LFault) {
+			case 5:
+				// well-known extensions with malformed or unusual bodies
+				types := []uint16{0, 10, 11, 13, 16, 35, 5, 18, 0xff01, 23, 15}
+				n := 1 + c.Choose(3, simkit.LFault)
+				for i := 0; i < n; i++ {
+					t := types[c.Choose(len(types), simkit.LFault)]
+					var body []byte
+					switch c.Choose(4, simkit.LFault) {
+					case 0:
+						body = nil
+					case 1:
+						body = drawData(c, c.Range(1, 9, simkit.LFault))
+					case 2:
+						body = []byte{0xff, 0xff, 0x00}
+					case 3:
+						body = append([]byte{0x00, 0x40}, drawData(c, 6)...)
+					}
+					dup := false
+					for _, e := range sr.ExtraExts {
+						if e.Type == t {
+							dup = true
+						}
+					}
+					if !dup && t != 0 && t != 35 {
+						sr.ExtraExts = append(sr.ExtraExts, reftls.Ext{Type: t, Data: body})
+					}
+				}
+				sr.Expect = expAny
+				sr.Why = fmt.Sprintf("ClientHello with %d malformed well-known extensions", len(sr.ExtraExts))
+				malformedExt = true
 			case 4:
 				// ClientKeyExchange carrying a malformed GM/T 0009 SM2Cipher structure
 				var x, y *big.Int = big.NewInt(1), big.NewInt(2)
@@ -392,6 +424,8 @@ func runScriptedPeer(c *simkit.Choice, r *simkit.Rec) {
 	var eut endRes
 	var eutApp []byte
 	eutFinished := false
+	var again, postReadErr, postWriteErr error
+	postN := 0
 	var peerRes *reftls.Result
 	var peerErr error
 	var pc *reftls.Conn
@@ -432,6 +466,13 @@ func runScriptedPeer(c *simkit.Choice, r *simkit.Rec) {
 		eut.HsErr = conn.Handshake()
 		collectState(conn, &eut)
 		if eut.HsErr != nil {
+			// the failure must be sticky and must leave no lock behind: a second
+			// Handshake, a Read, a Write and Close all have to return (with errors)
+			again = conn.Handshake()
+			var b1 [8]byte
+			postN, postReadErr = conn.Read(b1[:])
+			_, postWriteErr = conn.Write([]byte("x"))
+			conn.Close()
 			eutRaw.Close()
 			eutFinished = true
 			return
@@ -467,6 +508,7 @@ func runScriptedPeer(c *simkit.Choice, r *simkit.Rec) {
 			if sr.ExtraExt {
 				cfg.ExtraExts = []reftls.Ext{{Type: 0xfabc, Data: []byte{1, 2, 3, 4}}}
 			}
+			cfg.ExtraExts = append(cfg.ExtraExts, sr.ExtraExts...)
 			if sr.ClientAuth {
 				cfg.Cert = &reftls.Identity{Chain: [][]byte{pki.DER("cli")}, Key: pki.D("cli")}
 			}
@@ -542,6 +584,9 @@ func runScriptedPeer(c *simkit.Choice, r *simkit.Rec) {
 	}
 	if crafted {
 		r.Fault(idx(scriptFaults, "crafted-key-exchange"))
+	}
+	if malformedExt {
+		r.Fault(idx(scriptFaults, "malformed-extensions"))
 	}
 	var sent []string
 	if pc != nil {
@@ -640,6 +685,16 @@ func runScriptedPeer(c *simkit.Choice, r *simkit.Rec) {
 		r.Reach(idx(scriptReach, "timeout-at-deadline"))
 		r.Outcome = "timeout-at-deadline"
 		return
+	}
+	if eut.HsErr != nil {
+		if again == nil {
+			r.Violate("error-not-sticky", site, fmt.Sprintf("Handshake failed (%v) but a second call returned nil", eut.HsErr))
+			return
+		}
+		if postN > 0 || postReadErr == nil || postWriteErr == nil {
+			r.Violate("error-not-sticky", site, fmt.Sprintf("after a failed handshake (%v): Read returned (%d, %v), Write returned %v", eut.HsErr, postN, postReadErr, postWriteErr))
+			return
+		}
 	}
 	switch expect {
 	case expFail:
